@@ -232,6 +232,23 @@ pub fn judge(rt: &tokio::runtime::Runtime, r: &mut Report, case: &CrashCase) -> 
     }
     let root = p.scratch.root();
     let temps_before_restart = temp_files(&root);
+    // The server that starts again need not see the same clock (a step back after reboot, a file server ahead of it): in
+    // every other crashed run the leftovers carry a modification time one hour / one year ahead of the clock, or forty years back
+    let mut leftover_mtime = "as-written";
+    if run.killed && !temps_before_restart.is_empty() && case.k % 2 == 1 {
+        let (name, t) = match case.k % 6 {
+            1 => ("one-hour-ahead", std::time::SystemTime::now() + std::time::Duration::from_secs(3600)),
+            3 => ("one-year-ahead", std::time::SystemTime::now() + std::time::Duration::from_secs(365 * 86_400)),
+            _ => ("forty-years-back", std::time::SystemTime::now() - std::time::Duration::from_secs(40 * 365 * 86_400)),
+        };
+        for n in &temps_before_restart {
+            if let Ok(f) = std::fs::OpenOptions::new().write(true).open(root.join(n)) {
+                if f.set_modified(t).is_ok() {
+                    leftover_mtime = name;
+                }
+            }
+        }
+    }
     // a server that starts again on the same root
     let svc = service(&root);
     let temps_after_restart = temp_files(&root);
@@ -243,7 +260,7 @@ pub fn judge(rt: &tokio::runtime::Runtime, r: &mut Report, case: &CrashCase) -> 
     let wit = |what: &str| json!({"kind": "crash", "case": case, "what": what, "outcome": outcome, "state_after": state, "site": site, "calls": run.calls, "temp_files_before_restart": temps_before_restart, "temp_files_after_restart": temps_after_restart, "read_after_len": after.as_ref().map(Vec::len), "previous_len": p.previous.as_ref().map(Vec::len), "new_len": p.new_content.len()});
     let site_name = site.split(' ').next().unwrap_or("").to_owned();
     if !temps_after_restart.is_empty() {
-        r.violated(format!("C19/crash/temp-file-left-after-restart/{}/{}", case.op, case.tamper), wit("a temporary file remains after the store was opened again"));
+        r.violated(format!("C19/crash/temp-file-left-after-restart/{}/{}/mtime-{leftover_mtime}", case.op, case.tamper), wit("a temporary file remains after the store was opened again"));
         return run.calls;
     }
     if !run.killed && !temps_before_restart.is_empty() {
@@ -265,6 +282,9 @@ pub fn judge(rt: &tokio::runtime::Runtime, r: &mut Report, case: &CrashCase) -> 
         return run.calls;
     }
     r.held(format!("crash/{}/{prev_class}/{}/{site_name}/{outcome}/{state}", case.op, case.tamper));
+    if leftover_mtime != "as-written" {
+        r.held(format!("crash/restart-with-leftovers-dated/{leftover_mtime}"));
+    }
     r.observe("crash_sites", format!("{}:{}:{site_name}", case.op, case.tamper));
     r.count("crash_leg_runs", 1);
     run.calls
